@@ -14,10 +14,10 @@ Clause(name, ok, detail) == IF ok THEN <<>> ELSE << <<name, detail>> >>
 
 (* -- value preservation on every target assignment ---------------------- *)
 ValDiff(ev, M, x, y) ==
-  LET tg == SeqRange(ev.tgt)
-      bad == {sig \in Assignments(ev.tgt, ev.idx, M) :
-                Val(x, ev.idx, tg, sig, M) # Val(y, ev.idx, tg, sig, M)}
-  IN bad
+  LET px == PrepExpr(x)
+      py == PrepExpr(y)
+  IN {sig \in Assignments(ev.tgt, ev.idx, M) :
+        ValP(px, ev.idx, sig, M) # ValP(py, ev.idx, sig, M)}
 
 ValEq(ev, M, x, y) ==
   LET tg == SeqRange(ev.tgt) IN
